@@ -118,8 +118,8 @@ P.update({
    text="30 invocation templates over all tools (22 fully specified, 8 underspecified with --base) each run under the baseline "
         "and under random TZ (15 values), LANG/LC_ALL/LC_TIME/LANGUAGE (12 values) and clock (20 instants + random + real) "
         "settings: stdout and exit status must be identical, the responsible setting is isolated on a difference; positive "
-        "control that the injected clock is seen; --from-locale A / --locale B pairs (quick: 500 random pairs, thorough: 40 per "
-        "parsing locale) in either order and spelling in dconv, dadd, dround, dseq against data/locale.",
+        "control that the injected clock is seen; --from-locale A / --locale B pairs (quick: 500 random pairs, thorough: all 226 x 274 "
+        "ordered pairs) in either order and spelling in dconv, dadd, dround, dseq against data/locale.",
    note=SAN + "the clock is injected at the libc boundary (shim), TZ/LANG through the real environment; inputs that leave fields open without --base follow the clock by design. " + TB, ref="3 C20"),
 })
 
